@@ -39,6 +39,8 @@ structure Mon where
   expHandlers : List (Nat × List Reg) := []     -- per pending expect(): the bus's handler registry before the call
   expResolvedAt : List (Nat × Nat) := [] -- expect() calls: the time their future was resolved with a match
   expNested : List Nat := []            -- expect() calls resolved by an event whose activation is nested inside that of an earlier match
+  scanning : Option IId := none         -- the instance whose await has just begun, or just finished an inline activation: it is
+                                        -- running (not suspended) and about to scan the queues
   deriving Repr
 
 def insts (w : World) : List IId := List.range w.ni
@@ -130,9 +132,11 @@ def f1Sig (w : World) (i : IId) (c : EId) : Bool :=
   !(w.ev c).signal && (w.inst i).iters ≥ w.cfg.maxPoll &&
   (buses w).any fun b => match (w.bus b).rl with | .took d => desc w d c | _ => false
 
-/-- par-steal: another instance's inline activation holds the awaited event or a descendant -/
+/-- par-steal: the inline activation of another instance, one that is not itself a handler inside the awaited tree (a sibling
+    on a parallel bus), holds the awaited event or a descendant -/
 def parStealSig (w : World) (i : IId) (c : EId) : Bool :=
-  (insts w).any fun j => j != i && match w.act (.inst j) with | some A => desc w A.ev c | none => false
+  (insts w).any fun j => j != i && !desc w (w.inst j).ev c &&
+    match w.act (.inst j) with | some A => desc w A.ev c | none => false
 
 def evicted (w : World) (m : Mon) (d : EId) : Bool :=
   !(w.ev d).signal && !inAnyHist w d && m.accepted.any (·.2 == d)
@@ -469,7 +473,50 @@ def Mon.step (m : Mon) (w : World) (l : Label) (w' : World) : Mon × List Vio :=
   let fresh := (events w').filterMap fun e =>
     if (((w'.ev e).signal && (w'.ev e).status == .completed) || awaited == some e) && !snaps.any (·.1 == e) && some e != redispatched
     then some (e, (w'.ev e).results) else none
-  ({ m with snaps := snaps ++ fresh }, vs ++ changed)
+  -- C05: the in-handler await scans the queues without suspending first. Right after `awaitBegin i` (and right after an inline
+  -- activation of `i` has ended) the awaiting task is running; while its awaited event is unsignalled and some queue holds an
+  -- event, its next step is to take one. A step of any other task in between means the await suspended before looking.
+  let otherTask (i : IId) : Bool := match l with
+    | .take (.rl _) _ _ => true
+    | .take (.inst j) _ _ => j != i
+    | .hStart _ => true
+    | .peBegin p _ _ => p != .inst i
+    | .dispatch p _ _ _ => p != .inst i
+    | _ => false
+  let scanV : List Vio := match m.scanning with
+    | some i =>
+      (match awaitedOf (w.inst i).st with
+       | some c =>
+         if otherTask i && !(w.ev c).signal && (w.act (.inst i)).isNone && (w.inst i).took.isNone && !(w.inst i).cancelling &&
+            (buses w).any (fun b => !(w.bus b).queue.isEmpty) then
+           [{ prop := "C05", clause := "notImmediate", sigs := [],
+              detail := s!"instance {i} awaits event {c} with events queued, but another task runs before it takes one" }]
+         else []
+       | none => [])
+    | none => []
+  let scanning : Option IId := match l with
+    | .awaitBegin i _ => some i
+    | .peEnd (.inst i) _ _ => some i
+    | _ => none
+  -- C10: a handler whose timeout (or cancellation) has been recorded has stopped executing: no further client action of that
+  -- instance follows (the guards forbid these labels on a finished instance, so this only fires on a history that is
+  -- followed after the correspondence has broken; it then is the concrete failing input)
+  let actor : Option IId := match l with
+    | .hEnd i _ => some i
+    | .awaitBegin i _ => some i
+    | .dispatch (.inst i) _ _ _ => some i
+    | .readBus i _ => some i
+    | _ => none
+  let zombieV : List Vio := match actor with
+    | some i =>
+      let I := w.inst i
+      if I.st == .finished &&
+         (match (w.ev I.ev).getRes? I.bus I.hid with | some r => r.err == .timeout || r.err == .cancelled | none => false) then
+        [{ prop := "C10", clause := "ranOnAfterTimeout", sigs := [],
+           detail := s!"instance {i} still acts after its timeout / cancellation was recorded as its result" }]
+      else []
+    | none => []
+  ({ m with snaps := snaps ++ fresh, scanning := scanning }, vs ++ changed ++ scanV ++ zombieV)
 
 /-- is the model quiescent: nothing queued on a live bus, nothing in hand, no open activation, no live instance -/
 def isRest (w : World) : Bool :=
